@@ -123,13 +123,17 @@ func buildEntryPoints() []*EntryPoint {
 		Call: func(lg slog.Logger, _ context.Context, _ slog.Level, msg string, _ []any) { _ = lg.Errorf("%s", msg) }})
 	// Verbose: never emits in a default build
 	add(&EntryPoint{Name: "Logger.Verbose", Kind: "verbose",
-		Call: func(lg slog.Logger, _ context.Context, _ slog.Level, msg string, args []any) { lg.Verbose(msg, args...) }})
+		Call: func(lg slog.Logger, _ context.Context, _ slog.Level, msg string, args []any) {
+			lg.Verbose(msg, args...)
+		}})
 	add(&EntryPoint{Name: "Logger.VerboseContext", Kind: "verbose",
 		Call: func(lg slog.Logger, ctx context.Context, _ slog.Level, msg string, args []any) {
 			lg.VerboseContext(ctx, msg, args...)
 		}})
 	add(&EntryPoint{Name: "slog.Verbose", Kind: "verbose", Pkg: true,
-		Call: func(_ slog.Logger, _ context.Context, _ slog.Level, msg string, args []any) { slog.Verbose(msg, args...) }})
+		Call: func(_ slog.Logger, _ context.Context, _ slog.Level, msg string, args []any) {
+			slog.Verbose(msg, args...)
+		}})
 	add(&EntryPoint{Name: "slog.VerboseContext", Kind: "verbose", Pkg: true,
 		Call: func(_ slog.Logger, ctx context.Context, _ slog.Level, msg string, args []any) {
 			slog.VerboseContext(ctx, msg, args...)
